@@ -43,6 +43,17 @@ TREES = {
         targets=["blocc"],
         extra=[],
     ),
+    # the compiler and optimisation level users build with, hooks on, no sanitizer: value-level checks are repeated against
+    # it because undefined behaviour may only show with one compiler (e.g. std::abs(INT64_MIN))
+    "gcc": dict(
+        cc="gcc", cxx="g++",
+        flags="-DBLOC_VERIF",
+        rel="-O2 -DNDEBUG",
+        link="",
+        targets=["blocc"],
+        extra=[],
+        harness_flags="-DVDRV_NOSAN",
+    ),
     "baseline": dict(
         cc="gcc", cxx="g++",
         flags="",
@@ -211,7 +222,7 @@ def build_harness_bin(out_name, sources, tree="asan", extra_flags="", libs="", d
         out = os.path.join(hdir, out_name)
         key = hashlib.sha1()
         key.update(header_key().encode())
-        key.update((cfg["flags"] + extra_flags + libs + REPO).encode())
+        key.update((cfg["flags"] + cfg.get("harness_flags", "") + extra_flags + libs + REPO).encode())
         for s in list(sources) + list(deps):
             with open(os.path.join(HARNESS, s), "rb") as f:
                 key.update(f.read())
@@ -220,7 +231,7 @@ def build_harness_bin(out_name, sources, tree="asan", extra_flags="", libs="", d
         k = key.hexdigest()
         if os.path.exists(out) and os.path.exists(stamp) and open(stamp).read() == k:
             return out
-        cmd = [cfg["cxx"], "-std=c++11"] + cfg["flags"].split() + cfg["rel"].split() + extra_flags.split() + \
+        cmd = [cfg["cxx"], "-std=c++11"] + cfg["flags"].split() + cfg["rel"].split() + extra_flags.split() + cfg.get("harness_flags", "").split() + \
               ["-I" + REPO, "-I" + os.path.join(REPO, "blocc"), "-I" + HARNESS] + \
               [os.path.join(HARNESS, s) for s in sources] + \
               ["-o", out, "-L" + os.path.join(tree_dir(tree), "blocc"), "-lblocc", "-ldl", "-lpthread"] + libs.split() + \
@@ -294,4 +305,5 @@ def setup():
     build_tree("asan")
     build_tree("tsan")
     ensure("asan")
+    ensure("gcc")
     return 0
